@@ -122,6 +122,97 @@ def _negate(t):
     return ast.copy_location(ast.UnaryOp(op=ast.Not(), operand=t), t)
 
 
+def _fold_const_attrs(root):
+    """`getattr(x, 'name')` -> `x.name`, `setattr(x, 'name', v)` as a
+    statement -> `x.name = v` (constant identifier names), and a
+    comprehension over a short literal tuple of constants written out:
+    `{k: getattr(s, k) for k in ('a', 'b')}` -> `{'a': s.a, 'b': s.b}`."""
+    import copy
+
+    class Sub(ast.NodeTransformer):
+        def __init__(self, m):
+            self.m = m
+
+        def visit_Name(self, n):
+            if isinstance(n.ctx, ast.Load) and n.id in self.m:
+                return copy.deepcopy(self.m[n.id])
+            return n
+
+    def rows(g):
+        if g.ifs or g.is_async or not isinstance(
+                g.iter, (ast.Tuple, ast.List)) or not g.iter.elts or len(
+                g.iter.elts) > 32:
+            return None
+        out = []
+        for e in g.iter.elts:
+            if isinstance(g.target, ast.Name) and isinstance(e, ast.Constant):
+                out.append({g.target.id: e})
+            elif isinstance(g.target, ast.Tuple) and isinstance(
+                    e, ast.Tuple) and len(e.elts) == len(
+                    g.target.elts) and all(isinstance(
+                        t, ast.Name) for t in g.target.elts) and all(
+                    isinstance(x, ast.Constant) for x in e.elts):
+                out.append({t.id: x for t, x in zip(g.target.elts, e.elts)})
+            else:
+                return None
+        return out
+
+    class T(ast.NodeTransformer):
+        def visit_DictComp(self, n):
+            self.generic_visit(n)
+            r = rows(n.generators[0]) if len(n.generators) == 1 else None
+            if r is None:
+                return n
+            return ast.copy_location(ast.Dict(
+                keys=[self.visit(Sub(m).visit(copy.deepcopy(n.key)))
+                      for m in r],
+                values=[self.visit(Sub(m).visit(copy.deepcopy(n.value)))
+                        for m in r]), n)
+
+        def visit_ListComp(self, n):
+            self.generic_visit(n)
+            r = rows(n.generators[0]) if len(n.generators) == 1 else None
+            if r is None:
+                return n
+            return ast.copy_location(ast.List(elts=[
+                self.visit(Sub(m).visit(copy.deepcopy(n.elt))) for m in r],
+                ctx=ast.Load()), n)
+
+        def visit_Call(self, n):
+            self.generic_visit(n)
+            if isinstance(n.func, ast.Name) and n.func.id == 'getattr' and \
+                    len(n.args) == 2 and not n.keywords and isinstance(
+                    n.args[1], ast.Constant) and isinstance(
+                    n.args[1].value, str) and n.args[1].value.isidentifier():
+                return ast.copy_location(ast.Attribute(
+                    value=n.args[0], attr=n.args[1].value, ctx=ast.Load()), n)
+            # `list(('a', 'b'))` -> `['a', 'b']` (after a table was written out)
+            if isinstance(n.func, ast.Name) and n.func.id in (
+                    'list', 'tuple') and len(n.args) == 1 and \
+                    not n.keywords and isinstance(
+                    n.args[0], (ast.Tuple, ast.List)) and all(
+                    isinstance(e, ast.Constant) for e in n.args[0].elts):
+                cls_ = ast.List if n.func.id == 'list' else ast.Tuple
+                return ast.copy_location(cls_(elts=n.args[0].elts,
+                                              ctx=ast.Load()), n)
+            return n
+
+        def visit_Expr(self, n):
+            self.generic_visit(n)
+            v = n.value
+            if isinstance(v, ast.Call) and isinstance(
+                    v.func, ast.Name) and v.func.id == 'setattr' and len(
+                    v.args) == 3 and not v.keywords and isinstance(
+                    v.args[1], ast.Constant) and isinstance(
+                    v.args[1].value, str) and v.args[1].value.isidentifier():
+                return ast.copy_location(ast.Assign(targets=[ast.Attribute(
+                    value=v.args[0], attr=v.args[1].value, ctx=ast.Store())],
+                    value=v.args[2]), n)
+            return n
+
+    return T().visit(root)
+
+
 def _flatten_terminating_arms(fn):
     """`if c: <ends in return/raise/continue/break> else: B` -> the `if`
     without else, followed by B; `if c: A else: <ends in ...>` -> `if not c:
@@ -600,6 +691,95 @@ def _replace_node(root, old, new):
     return False
 
 
+_RECORDED = None
+
+
+def _recorded_names(rel):
+    """Module-level names of the pinned tree (spec/anchors.json); every name
+    counts as recorded when the table is missing, so nothing is propagated."""
+    global _RECORDED
+    if _RECORDED is None:
+        import json
+        path = os.path.join(os.path.dirname(os.path.dirname(
+            os.path.abspath(__file__))), 'spec', 'anchors.json')
+        try:
+            with open(path) as f:
+                _RECORDED = {k: set(v) for k, v in json.load(f).get(
+                    'module_names', {}).items()}
+        except Exception:
+            _RECORDED = {}
+    return _RECORDED.get(rel) if rel in _RECORDED else _Everything()
+
+
+class _Everything:
+    def __contains__(self, x):
+        return True
+
+
+def _propagate_new_constants(tree, known):
+    """A module-level name that is *new* relative to the record of the pinned
+    tree, assigned exactly once from a literal (number, string, tuple of
+    literals), is replaced by that literal where functions of the module read
+    it: "name the magic numbers" leaves the canonical form unchanged."""
+    def literal(v):
+        if isinstance(v, ast.Constant):
+            return True
+        if isinstance(v, ast.UnaryOp) and isinstance(
+                v.op, (ast.USub, ast.UAdd)) and isinstance(
+                v.operand, ast.Constant):
+            return True
+        return isinstance(v, ast.Tuple) and all(literal(e) for e in v.elts)
+
+    cands, stores = {}, {}
+    for x in ast.walk(tree):
+        if isinstance(x, ast.Name) and isinstance(x.ctx, (ast.Store, ast.Del)):
+            stores[x.id] = stores.get(x.id, 0) + 1
+        elif isinstance(x, (ast.Global, ast.Nonlocal)):
+            for nm in x.names:
+                stores[nm] = stores.get(nm, 0) + 2
+        elif isinstance(x, ast.arg):
+            stores[x.arg] = stores.get(x.arg, 0) + 2
+    own_defs = set()
+    for st in tree.body:
+        pairs = []
+        if isinstance(st, ast.Assign) and len(st.targets) > 1 and all(
+                isinstance(t, ast.Name) for t in st.targets):
+            pairs = [(t, st.value) for t in st.targets]   # a = b = 60
+        elif isinstance(st, ast.Assign) and len(st.targets) == 1:
+            t, v = st.targets[0], st.value
+            if isinstance(t, ast.Name):
+                pairs = [(t, v)]
+            elif isinstance(t, ast.Tuple) and isinstance(
+                    v, ast.Tuple) and len(t.elts) == len(v.elts) and all(
+                    isinstance(e, ast.Name) for e in t.elts):
+                pairs = list(zip(t.elts, v.elts))
+        for t, v in pairs:
+            nm = t.id
+            if literal(v) and nm not in known and stores.get(nm) == 1 and \
+                    not (nm.startswith('__') and nm.endswith('__')):
+                cands[nm] = v
+                own_defs.add(id(st))
+    if not cands:
+        return 0
+    import copy
+    n_done = [0]
+
+    class T(ast.NodeTransformer):
+        def visit_Name(self, n):
+            if isinstance(n.ctx, ast.Load) and n.id in cands:
+                n_done[0] += 1
+                return ast.copy_location(copy.deepcopy(cands[n.id]), n)
+            return n
+
+    for st in tree.body:
+        if isinstance(st, (ast.FunctionDef, ast.AsyncFunctionDef,
+                           ast.ClassDef)):
+            T().visit(st)
+        elif isinstance(st, ast.Assign) and id(st) not in own_defs:
+            st.value = T().visit(st.value)
+    return n_done[0]
+
+
 class _PolarityNormaliser(ast.NodeTransformer):
     """One spelling for tests: `not not x` -> `x`; `not (a is b)` -> `a is not b`
     (likewise in / == and their negations); a two-armed `if not c: A else: B`
@@ -619,6 +799,27 @@ class _PolarityNormaliser(ast.NodeTransformer):
                     type(x.ops[0]) in self.FLIP:
                 x.ops = [self.FLIP[type(x.ops[0])]()]
                 return x
+            # `not (not a or b)` -> `a and not b`: a negation is pushed into
+            # a conjunction / disjunction that already negates one of its
+            # operands (when all of them are plain, `not (a or b)` stays)
+            if isinstance(x, ast.BoolOp) and any(
+                    isinstance(v, ast.UnaryOp) and isinstance(v.op, ast.Not)
+                    for v in x.values):
+                vals = []
+                for v in x.values:
+                    if isinstance(v, ast.UnaryOp) and isinstance(
+                            v.op, ast.Not):
+                        vals.append(v.operand)
+                    else:
+                        vals.append(self.visit_UnaryOp(ast.copy_location(
+                            ast.UnaryOp(op=ast.Not(), operand=v), v))
+                            if not isinstance(v, ast.BoolOp) else
+                            ast.copy_location(ast.UnaryOp(
+                                op=ast.Not(), operand=v), v))
+                new = ast.copy_location(ast.BoolOp(
+                    op=ast.And() if isinstance(x.op, ast.Or) else ast.Or(),
+                    values=vals), x)
+                return new
         return n
 
     @staticmethod
@@ -657,6 +858,13 @@ class _PolarityNormaliser(ast.NodeTransformer):
         """`a <= x and x <= b` -> `a <= x <= b` (same plain name in the
         middle); `not a or not b` -> `not (a and b)` and the dual."""
         self.generic_visit(n)
+        flat = []
+        for v in n.values:
+            if isinstance(v, ast.BoolOp) and type(v.op) is type(n.op):
+                flat.extend(v.values)
+            else:
+                flat.append(v)
+        n.values = flat
         if isinstance(n.op, ast.And):
             vals, i = [], 0
             while i < len(n.values):
@@ -693,6 +901,11 @@ class _PolarityNormaliser(ast.NodeTransformer):
 
     def visit_If(self, n):
         self.generic_visit(n)
+        # `if a: pass  else: X` -> `if not a: X`
+        if n.orelse and n.body and all(isinstance(st, ast.Pass)
+                                       for st in n.body):
+            n.test = self.visit(_negate(n.test))
+            n.body, n.orelse = n.orelse, []
         if n.orelse:
             inner = self._strip(n.test)
             if inner is not None:
@@ -722,6 +935,7 @@ class _PolarityNormaliser(ast.NodeTransformer):
         _flags_to_for_else(n)
         _loops_to_comprehensions(n)
         _inline_adjacent_temporaries(n)
+        _fold_const_attrs(n)
         return n
 
     visit_AsyncFunctionDef = visit_FunctionDef
@@ -796,6 +1010,15 @@ class _PolarityNormaliser(ast.NodeTransformer):
                 return ast.copy_location(ast.DictComp(
                     key=g.elt.elts[0], value=g.elt.elts[1],
                     generators=g.generators), n)
+        # `list(('a', 'b'))` -> `['a', 'b']`, `tuple(['a'])` -> `('a',)`
+        if isinstance(n.func, ast.Name) and n.func.id in ('list', 'tuple') \
+                and len(n.args) == 1 and not n.keywords and isinstance(
+                n.args[0], (ast.Tuple, ast.List)) and not any(
+                isinstance(e, ast.Starred) for e in n.args[0].elts) and \
+                n.func.id not in self.rebound:
+            cls_ = ast.List if n.func.id == 'list' else ast.Tuple
+            return ast.copy_location(cls_(elts=n.args[0].elts,
+                                          ctx=ast.Load()), n)
         if isinstance(n.func, ast.Name) and n.func.id == 'dict' and \
                 not n.args and n.keywords and all(
                 k.arg is not None for k in n.keywords) and \
@@ -864,6 +1087,7 @@ class Module:
             self.tree = ast.parse(self.src, filename=path)
         except SyntaxError as ex:
             raise AnalysisError('cannot parse %s: %s' % (rel, ex))
+        _propagate_new_constants(self.tree, _recorded_names(rel))
         if normalise:
             _PolarityNormaliser().visit(self.tree)
         self.is_pkg = os.path.basename(path) == '__init__.py'
